@@ -1,6 +1,7 @@
 import Ekit.Props.C09
 import Ekit.Props.C09bRev
 import Ekit.Props.C09aRev
+import Driver.Ev.DelayQSoundC09
 #print axioms c09a_lbq_fetch_before_unlock
 #print axioms c09a_lbq_generations
 #print axioms c09a_lbq_no_lost_wakeup_enq
@@ -76,3 +77,5 @@ open Ekit.DelayQ
 #print axioms c09a_abq_exactly_capacity
 #print axioms c09a_lbq_fill
 #print axioms c09a_lbq_drain
+-- soundness of the DelayQueue's event replayer (Driver/Ev/DelayQSound.lean) through the C09b theorems
+#print axioms Driver.Ev.DQ.c09_dq_evtrace_no_lost_wakeup
